@@ -44,11 +44,21 @@ class EqGen:
         if c < .3: return ("dy", R.choice([1, -1, 3, -3, 5]), k)
         big = R.choice([2**31, 2**40, 2**45, 2**49, 10**9, 10**12, 3 * 2**38]); m = big * 2**k + R.choice([1, -1, 2**k - 1])
         return ("dy", R.choice([1, -1]) * m, k)
+    def real_t(s):
+        R = s.R; k = R.random()
+        if k < .4: return ("int", R.choice([0, 0, 1, -1, 2, 7, 2**53, 2**53 + 1, 2**60]))
+        if k < .8: return ("float", R.choice([0, 0, 1, -1, 2, 2**53, 2**60]))
+        if k < .9: return s.dyadic()
+        return ("inf",)
+    def cplx(s):
+        """complex(real part, imaginary part) of two reals: imaginary part 0 makes it equal to the real, any other does not"""
+        return ("cx", s.real_t(), s.real_t())
     def atom_t(s):
         R = s.R; k = R.random()
         if k < .35: return ("int", s.integer())
-        if k < .50: return ("float", R.choice([0, 1, -1, 2, 2**53, 2**53 + 1, 2**60, 2**61 - 1, R.randrange(-5, 6)]))
-        if k < .55: return s.dyadic()
+        if k < .47: return ("float", R.choice([0, 1, -1, 2, 2**53, 2**53 + 1, 2**60, 2**61 - 1, R.randrange(-5, 6)]))
+        if k < .51: return s.dyadic()
+        if k < .55: return s.cplx()
         if k < .60: return ("inf",)
         if k < .70: return ("bool", R.random() < .5)
         if k < .82: return ("str", R.randrange(-3, 4))
@@ -69,6 +79,7 @@ class EqGen:
         if k == "float": return call("ㅅㅅ", [E(t[1])])
         if k == "dy": return call("ㄱ", [call("ㅅㅅ", [E(t[1])]), call("ㅅ", [call("ㅅㅅ", [E(2)]), E(-t[2])])])      # m * 2.0 ** -k, exact
         if k == "inf": return call("ㅂ", ["ㅂ", "ㅅ", "ㅁ"])
+        if k == "cx": return call("ㅂㅅ", [s.render(t[1]), s.render(t[2])])
         if k == "bool": return call("ㅈㅈ" if t[1] else "ㄱㅈ", [])
         if k == "str": return call("ㅁㅈ", [E(t[1])]) if t[1] != -9 else "(ㅁㅈㅎㄱ)"
         if k == "nil": return call("ㅂㄱ", [])
@@ -90,6 +101,13 @@ class EqGen:
             if k == "nil": return R.choice([("list", []), ("exc", []), ("dict", []), ("str", -9), ("int", 0), ("bool", False)])
             if k == "dict" and not t[1]: return R.choice([("list", []), ("exc", []), ("nil",)])
             if k == "str": return ("int", t[1]) if R.random() < .5 else ("list", [("str", t[1])])
+        if k == "cx":      # the real it equals when the imaginary part is zero; otherwise a partner with one part changed or the parts swapped
+            c = R.random(); zero_im = t[2] in (("int", 0), ("float", 0))
+            if c < .35: return t[1] if zero_im or R.random() < .5 else ("cx", t[1], ("int", 0))
+            if c < .55: return ("cx", t[2], t[1])
+            if c < .8: return ("cx", s.perturb(t[1]) if t[1][0] in ("int", "float", "dy") else t[1], t[2])
+            return ("cx", t[1], s.perturb(t[2]) if t[2][0] in ("int", "float", "dy") else ("int", 1))
+        if k in ("int", "float") and R.random() < .12: return ("cx", t, ("int", 0) if R.random() < .6 else ("float", R.choice([0, 1])))
         if k == "dy":      # the integer / integral real next to it, or another real with the same integer part: all DIFFERENT from it
             m, j = t[1], t[2]; c = R.random(); fl = m // 2**j
             if c < .3: return ("int", fl + R.choice([0, 1]))
@@ -194,6 +212,7 @@ def c11_tower(r, seed, tier, model_ok):
         if d <= 0 or k < .25: return E(integer())
         if k < .40: return call("ㅅㅅ", [num(d - 1)])
         if k < .45: return call("ㅂ", ["ㅂ", "ㅅ", R.choice(["ㅁ", "ㄴ"])])
+        if k < .50: return call("ㅂㅅ", [num(d - 1)] + ([num(d - 1)] if R.random() < .7 else []))          # complex(real[, imaginary]) - either part may itself be complex
         if k < .65: return call("ㄱ", [num(d - 1) for _ in range(R.randrange(1, 5))])
         if k < .90: return call("ㄷ", [num(d - 1) for _ in range(R.randrange(1, 6))])
         if k < .93: return call(call("ㅂ", ["ㅂ", "ㅅ", "ㅂㄹ", R.choice("ㄱㄴㄷㄹㅁ")]), [num(d - 1)])
@@ -556,6 +575,25 @@ def c18_print(r, seed, tier, model_ok):
         def nrm(f): f = list(f); f[0] = "V " + ",".join(str(ord(ch)) for ch in norm_dicts(decode_v(f[0])[2:])) if f[0].startswith("V ") else f[0]; return f
         dist, bad2 = compare(ic2, ia2, b, fields=("res",), norm=nrm)
         r.slice("printing_vs_model", len(ic2), len({c["text"] for c in ic2}), [ic2[-1]["text"]], dict(outcomes=dict(dist)), "integer re-read and dictionary printing programs vs the extracted model's formatter", bad2)
+        # complex numbers: each part prints as an INTEGER when it is close to one (math.isclose with relative tolerance 1e-9, absolute 1e-16), a zero
+        # real part is left out, an imaginary part of magnitude 1 prints as "i" - parts built exactly as m * 2^-k: near integers on both sides of
+        # either tolerance, halves, huge values, both zeros, infinities; alone, in lists and as dictionary keys
+        Rc = random.Random(seed * 7919 + 0xC18 + 9)
+        def part():
+            k = Rc.random()
+            if k < .2: return E(Rc.choice([0, 1, -1, 2, -7, 10**6, 2**53 + 1, -2**60]))
+            if k < .3: return f"({E(Rc.choice([0, 1, -1, 3]))} ㅅㅅㅎㄴ)"
+            if k < .4: return f"(({E(0)} ㅅㅅㅎㄴ) {E(-1)} ㄱㅎㄷ)"                                             # -0.0
+            if k < .5: return Rc.choice(["(ㅂ ㅅ ㅁ ㅂㅎㄹ)", "((ㅂ ㅅ ㅁ ㅂㅎㄹ) ㄴㄱ ㄱㅎㄷ)"])                  # +inf, -inf
+            big = Rc.choice([1, 3, 2**20, 2**31, 2**40, 10**9, 2**52]); j = Rc.choice([1, 2, 20, 29, 30, 31, 40, 52, 53, 54, 60, 70])
+            m = big * 2**j + Rc.choice([1, -1]); m = m if m.bit_length() <= 53 else Rc.choice([1, -1, 3])             # m * 2^-j exact in a double
+            return f"(({E(Rc.choice([1, -1]) * m)} ㅅㅅㅎㄴ) (({E(2)} ㅅㅅㅎㄴ) {E(-j)} ㅅㅎㄷ) ㄱㅎㄷ)"
+        cc = []
+        for _ in range(N(tier, 600, 8000)):
+            z = f"({part()} {part()} ㅂㅅㅎㄷ)"; k = Rc.random()
+            cc.append(dict(text=z if k < .6 else f"{z} {part()} ㅁㄹㅎㄷ" if k < .8 else f"{z} {E(1)} ㅅㅈㅎㄷ", floats=True, trace=False))
+        ca = impl_run(cc); cb = model_run(cc, tlimit=10); dist2, bad3 = compare(cc, ca, cb, fields=("res",), norm=nrm)
+        r.slice("complex_printing_vs_model", len(cc), len({c["text"] for c in cc}), [cc[0]["text"]], dict(outcomes=dict(dist2)), "complex numbers with parts on both sides of the print tolerances, zeros of both signs, infinities, huge values: printed form vs Float.show_complex", bad3)
 
 def c18_cli(r, seed, tier, model_ok):
     """cli.run: exit status = integer result (0 for the empty value), a top-level function is applied to the argument strings, a resulting
@@ -683,8 +721,8 @@ def c02_callables(r, seed, tier, model_ok):
     r.slice("calling_non_functions", len(cases), len({c["text"] for c in cases}), [cases[0]["text"], cases[-1]["text"]], dict(kinds),
             "Boolean / list / string / bytes / exception / dictionary / complex called with every index in -len-3..len+2, wrong arities and argument kinds; argument references at every position -k-2..k+1 of a k-argument function in 6 contexts; vs the documented rule", bad[:40])
     if model_ok:
-        mc = [c for c in cases if "ㅂㅅㅎㄷ" not in c["text"]]; ma = [o for c, o in zip(cases, a) if "ㅂㅅㅎㄷ" not in c["text"]]
+        mc = cases; ma = a
         b = model_run(mc); dist, bad2 = compare(mc, ma, b, fields=("res",))
-        r.slice("calling_non_functions_vs_model", len(mc), len({c["text"] for c in mc}), [mc[1]["text"]], dict(outcomes=dict(dist)), "the same calls (complex numbers excepted: not modelled) vs the model", bad2)
+        r.slice("calling_non_functions_vs_model", len(mc), len({c["text"] for c in mc}), [mc[1]["text"]], dict(outcomes=dict(dist)), "the same calls (complex numbers included) vs the model", bad2)
 def G_dec(w):
     T = "ㄱㄴㄷㄹㅁㅂㅅㅈ"; v = sum(T.index(c) * 8 ** i for i, c in enumerate(w)); return -v if len(w) % 2 == 0 else v
